@@ -14,7 +14,7 @@ FUNCTIONS = ["MolGraph.relabel_atoms", "StereoMolGraph.relabel_atoms", "StereoCo
              "follow-up: every public mutator / query on the relabelled graph"]
 IMG = (0, 1, 2, 5, -3, 1 << 40)
 BOUNDS = {"quick": "graphs: solver-enumerated family over universe {0,1,2} incl. isolated atoms (C09 quick restrictions); mappings: each id unmapped or "
-                   f"mapped into {IMG}, identity-extended map injective; copy and in-place; inverse; follow-up: one argument tuple of every op kind; "
+                   f"mapped into {IMG}, identity-extended map injective; copy and in-place; inverse; follow-up: one argument tuple of every op kind (the source of a copy must stay unchanged, all views, after the follow-up edit of the copy); "
                    "templates twocentre, ring4, sn2, dbond (several descriptors / stereo changes per graph) x neighbour transpositions, cyclic shift, pair swaps, reversal, partial map onto fresh identifiers",
           "thorough": "all decorations; universe {0,1,2,3} for MG/CRG; all follow-up argument tuples of the renamed universe"}
 OUTSIDE = "non-injective mappings (undefined); universes > 4 ids"
